@@ -611,3 +611,18 @@ package constraint
 //@   maypanic
 //@   ensures exists s string :: spellsDecoded(s, value) && (panics <==> !timeParses("2006-01-02T15:04:05Z07:00", s))
 //@   ensures panics ==> errWF(pv)
+
+// ---- C02: uuid: the accepted shapes (plain, urn:uuid:, braced, 32 hex digits) ----
+//@ func xtob(x1, x2)
+//@   props C02
+//@   nopanic
+
+//@ func parseBytes(b)
+//@   props C02
+//@   nopanic
+//@   ensures result == nil ==> len(b) == 36 || len(b) == 45 || len(b) == 38 || len(b) == 32
+//@   ensures result == nil && len(b) == 38 ==> b[0] == '{' && b[37] == '}' && b[9] == '-' && b[14] == '-' && b[19] == '-' && b[24] == '-'
+//@   ensures result == nil && len(b) == 36 ==> b[8] == '-' && b[13] == '-' && b[18] == '-' && b[23] == '-'
+//@   ensures result == nil && len(b) == 45 ==> b[17] == '-' && b[22] == '-' && b[27] == '-' && b[32] == '-'
+//@   loop 0 invariant 0 <= i && i <= 32 && i % 2 == 0 && len(b) == 32
+//@   loop 1 invariant len(b) >= 36
